@@ -13,7 +13,8 @@ RULE = ("scenario = run_forever(ping_interval=i, ping_timeout=t, ping_payload=p)
         "jittered, bursty) strictly below 0.9 t (responsive stratum) or 'stops answering after the k-th ping' (silent "
         "stratum, optionally after the first bytes of a frame whose rest never arrives); concurrent server traffic (none / "
         "steady / bursts timed to collide with ping and timeout instants / pong frames nobody asked for at offsets around "
-        "and after the timeout); seeded schedules incl. line-level pre-emption between ping thread and loop.  Oracle from the peer's "
+        "and after the timeout); optionally an application thread sitting in send() (server window closed for longer than "
+        "the timeout) when a ping falls due; seeded schedules incl. line-level pre-emption between ping thread and loop.  Oracle from the peer's "
         "log and the callback trace: pings carry p, consecutive pings are i apart, the first no later than 2 i after the "
         "connection is up, none after the run has ended; silent: on_error(WebSocketTimeoutException 'ping/pong timed "
         "out') no later than P + 2 t (P = arrival of the first unanswered ping); responsive: no timeout ever reported; "
@@ -81,6 +82,7 @@ def expand(item, seed):
                             yield dict(sc, dispatcher="rel")
                             if stratum == "responsive":
                                 yield dict(sc, second_conn="second_run_timeout_only")
+                                yield dict(sc, sender={"at": 2 * int(i * S) - S // 8, "block": int(t * S) + S // 2, "len": 100})
                         if traffic == "none" and i in (1, 3, 8):
                             yield dict(sc, second_conn="second_run")
                             if stratum == "responsive":
@@ -149,6 +151,10 @@ def gen(rng):
         sc["dispatcher"] = "rel"              # external dispatcher (stub): the ping/pong check runs as one of its timers
         if pong.get("partial"):
             pong.pop("partial")
+    if tt is not None and pong.get("stop_after") is None and not sc.get("second_conn") and not sc.get("dispatcher") and rng.random() < 0.15:
+        # an application thread is inside send() (the server's window closed for a while, the server itself answering every
+        # ping at once) when a ping falls due: the ping has to wait for the send lock
+        sc["sender"] = {"at": rng.choice((2, 3)) * it - rng.choice((S // 8, S // 2)), "block": tt + rng.choice((S // 4, tt, 2 * tt)), "len": 100}
     sc["policy"] = rng.choice(({"kind": "coop", "p_call": 0.0}, {"kind": "coop", "p_call": 0.3},
                                {"kind": "prob", "p_line": 1 / 64, "p_call": 0.3}, {"kind": "prob", "p_line": 1 / 8, "p_call": 0.3},
                                {"kind": "pct", "d": 2, "len": 4000},
@@ -268,6 +274,11 @@ def run(sc, choices=None):
            "seed": sc.get("seed", 1), "time_cap_s": int(horizon / S) + 200, "linger": 3 * it + S if not refused else 0,
            "step_cap": 1_500_000}
     asc.update(extra)
+    sender = sc.get("sender") if not refused else None
+    if sender is not None:
+        if silent or second_conn or disp != "builtin" or tt is None:
+            raise InvalidScenario("the blocked application thread is judged on a first, responsive connection under the built-in loop")
+        asc["sender"] = dict(sender)
     out = run_app(asc, choices)
     w = out["world"]
     res.absorb(w, exclude_kinds=("send", "recv", "deliver", "recv_call") if sc.get("tls") else ())
@@ -281,7 +292,9 @@ def run(sc, choices=None):
     stratum = "refused" if refused else ("silent" if silent else "responsive")
     ctx = f"{stratum}/{ratio}"
     if silent and pong.get("partial"):
-        ctx = "silent_midframe"  # (the judged connection may be a re-established one or belong to a second run: see detail)
+        ctx = "silent_midframe"
+    if sender is not None:
+        ctx = "responsive/application_thread_in_send"  # (the judged connection may be a re-established one or belong to a second run: see detail)
     if refused:
         ok = run_.exc is not None and isinstance(run_.exc, w.ws.WebSocketException)
         if not ok:
@@ -336,7 +349,9 @@ def run(sc, choices=None):
     early = [t for t in run_.trace if t[2] == "on_error" and t[3] and t[3][0][0] == "exc" and t[3][0][1] == "WebSocketTimeoutException" and t[1] >= t0]
     if silent and early:
         end = min(end, early[0][1])  # from the report on the connection is being given up: no further ping is owed
-    if pings:
+    if sender is not None:
+        pass  # while the application's own write holds the send lock no ping can go out: cadence is not judged, detection is
+    elif pings:
         if pings[0][2] - t0 > 2 * it + SLACK:
             res.violate("first_ping_late", ctx, f"first ping {(pings[0][2] - t0) / S}s after the connection came up, interval {i_s}")
             return _fin(res, sc, ctx, len(pings))
@@ -404,4 +419,4 @@ def _fin(res, sc, ctx, npings):
 
 
 def sample_view(sc, r):
-    return {k: sc.get(k) for k in ("interval", "timeout", "payload", "pong", "traffic", "pings", "policy", "tls", "second_conn", "dispatcher")}
+    return {k: sc.get(k) for k in ("interval", "timeout", "payload", "pong", "traffic", "pings", "policy", "tls", "second_conn", "dispatcher", "sender")}
